@@ -106,13 +106,12 @@ PopWitness(q) ==
   /\ LET succ == {e[3] : e \in Out(A, q)}
          hit == succ \cap A.fin
      IN IF hit # {}
-        THEN \E f \in hit :           \* successors seen before f may have been added to `seen`; they do not matter any more
-               /\ out' = UselessF([res EXCEPT !.fin = {f}, !.delta = res.delta \cup Out(A, q)])
-               /\ done' = TRUE /\ UNCHANGED <<work, seen, res>>
+        THEN \E f \in hit :           \* the search stops: nothing is left on the work list (successors seen before f do not matter)
+               /\ res' = [res EXCEPT !.fin = {f}, !.delta = res.delta \cup Out(A, q)]
+               /\ work' = {} /\ UNCHANGED seen
         ELSE /\ res' = [res EXCEPT !.delta = res.delta \cup Out(A, q)]
              /\ seen' = seen \cup succ /\ work' = (work \ {q}) \cup (succ \ seen)
-             /\ UNCHANGED <<out, done>>
-  /\ UNCHANGED <<op, A, B>>
+  /\ UNCHANGED <<op, A, B, out, done>>
 FinishWitness ==
   /\ op = "witness" /\ ~done /\ (NoFinalStart \/ A.start \cap A.fin = {}) /\ work = {}
   /\ out' = UselessF(res) /\ done' = TRUE
